@@ -65,6 +65,9 @@ func newEnc(w *World, fn *ssa.Function, fc *FuncContract) *Enc {
 
 func (e *Enc) reset() {
 	e.decls = nil
+	e.sentinels = nil
+	e.unstatable = nil
+	e.closureOf = nil
 	e.declSet = map[string]bool{}
 	e.axioms = nil
 	e.items = nil
@@ -457,7 +460,7 @@ func (e *Enc) edge(from, to *ssa.BasicBlock, cond Term) {
 			for j, bc := range li.lc.Backs {
 				t, err := ctx.EvalBool(bc.E)
 				if err != nil && strings.Contains(err.Error(), "unknown identifier") {
-					e.assertOb(fmt.Sprintf("loop%d/back.e%d#%d", li.ordinal, e.backOrd[to], j+1), tFalse, "before another iteration (cannot be stated here: "+err.Error()+"): "+bc.Src, token.NoPos)
+					e.unstatable = append(e.unstatable, fmt.Sprintf("%s: loop %d back clause: %v (in `%s`)", e.fnLabel, li.ordinal, err, bc.Src))
 					continue
 				}
 				if err != nil {
@@ -1077,7 +1080,7 @@ func (e *Enc) atReturnClauses(r *ssa.Return, pre bool, ctx *SpecCtx) {
 		}
 		t, err := lc.EvalBool(ar.C.E)
 		if err != nil && strings.Contains(err.Error(), "unknown identifier") {
-			e.assertOb(fmt.Sprintf("at@return#%d.%d", k, i+1), tFalse, fmt.Sprintf("assertion at return %d cannot be stated there (%v): %s", k, err, ar.C.Src), posOf(r))
+			e.unstatable = append(e.unstatable, fmt.Sprintf("%s: at return %d: %v (in `%s`)", e.fnLabel, k, err, ar.C.Src))
 			continue
 		}
 		if err != nil {
